@@ -38,7 +38,9 @@ BRefs == << [t |-> "R3", f |-> TRUE,  c |-> 2, n |-> "TVar"],
             [t |-> "R3", f |-> TRUE,  c |-> 2, n |-> "TVar"],      \* duplicate reference
             [t |-> "R2", f |-> FALSE, c |-> 1, n |-> "TObj"],
             [t |-> HS,   f |-> TRUE,  c |-> 1, n |-> "TObj"],
-            [t |-> "R0", f |-> TRUE,  c |-> 4, n |-> "TMeth"] >>
+            [t |-> "R0", f |-> TRUE,  c |-> 4, n |-> "TMeth"],
+            [t |-> "R1", f |-> TRUE,  c |-> 1, n |-> "TNone"],     \* target node does not exist
+            [t |-> "R1", f |-> FALSE, c |-> 2, n |-> "TNone"] >>
 SynNodeIds  == {"A", "B", "E"}
 SynNodeRefs == [nd \in SynNodeIds |-> CASE nd = "A" -> ARefs [] nd = "B" -> BRefs [] OTHER -> <<>>]
 SynGhosts   == {"ghost", "ghostns"}            \* unknown node in a known namespace / unknown namespace
